@@ -326,6 +326,9 @@ pub fn run(u: &mut Universe, b: &Batch, st: &mut Stats) {
         let mut h = H { handle: None, handle_fl: 0 };
         let out = run_case(u, &case, &mut h, false);
         cleanup_mounts();
+        if case.extra["overmount"].as_bool() == Some(true) {
+            u.poisoned = true; // never reuse a universe that has seen mounts
+        }
         if let Some(e) = &out.harness_error {
             st.harness_errors.push(format!("history {idx}: {e}"));
             return;
